@@ -559,9 +559,19 @@ def analyze(ctx, want):
             lc = fields["last_char"]
             s = S.vstr(lc)
             dep_old = S.mentions(lc, lambda x: x == ("field", ("sym", "self"), "last_char"))
-            dep_inp = S.mentions(lc, lambda x: x == ("field", ("sym", "self"), "input"))
-            rto = [x for x in S.subterms(lc) if x[0] == "adt" and x[2] == "RangeTo"]
-            backwards = S.mentions(lc, lambda x: x[0] == "app" and re.search(r"(next_back|::last|::rev)$", x[1]) is not None)
+            is_back = lambda x: x[0] == "app" and re.search(r"(next_back|::last|::rev)$", x[1]) is not None
+            src = lc
+            if not S.mentions(lc, is_back):
+                # `prefix.chars().next_back().unwrap_or('\0')` analysed as the branch it is: on the path where there is no char in
+                # front of the new position the neutral char is stored
+                none_of = [c[1] for c, o in p.conds if c[0] == "isvar" and ((c[2] == "None" and o is True) or (c[2] == "Some" and o is False)) and S.mentions(c[1], is_back)]
+                neutral = S.vstr(lc).startswith("'\\x00'") or S.vstr(lc) in ("'\x00'", "'\\0'")
+                if none_of and neutral:
+                    src = none_of[-1]
+                    s = "%s when %s is None" % (s, S.vstr(src)[:100])
+            dep_inp = S.mentions(src, lambda x: x == ("field", ("sym", "self"), "input"))
+            rto = [x for x in S.subterms(src) if x[0] == "adt" and x[2] == "RangeTo"]
+            backwards = S.mentions(src, is_back)
             ok = (not dep_old) and dep_inp and bool(rto) and backwards
             ob("C09.a", "set_offset:last_char-is-the-char-before-the-new-position", ok,
                "last_char := %s (must be the last char of the haystack in front of the new position, not taken from the old cursor)" % s[:160], so.loc())
